@@ -82,7 +82,9 @@ func c09Vocabulary() []c09Sym {
 		}
 		switch tt {
 		case sql.IDENT:
-			out = append(out, c09Sym{sql.Token{Type: tt, Text: "t"}, "ident:t"}, c09Sym{sql.Token{Type: tt, Text: "databases"}, "ident:databases"})
+			out = append(out, c09Sym{sql.Token{Type: tt, Text: "t"}, "ident:t"}, c09Sym{sql.Token{Type: tt, Text: "databases"}, "ident:databases"},
+				// (identifiers spelled like words of SQL that are not reserved here, and the empty identifier)
+				c09Sym{sql.Token{Type: tt, Text: "if"}, "ident:if"}, c09Sym{sql.Token{Type: tt, Text: ""}, "ident:empty"})
 		case sql.INT:
 			out = append(out, c09Sym{sql.Token{Type: tt, Text: "1"}, "int:1"}, c09Sym{sql.Token{Type: tt, Text: "99999999999999999999"}, "int:20digits"},
 				c09Sym{sql.Token{Type: tt, Text: ""}, "int:empty"}, c09Sym{sql.Token{Type: tt, Text: "0"}, "int:0"}, c09Sym{sql.Token{Type: tt, Text: "9223372036854775807"}, "int:max"})
